@@ -1095,6 +1095,51 @@ def extract_session_order4(out: Out, srcs):
                "stores the message without delivering it")
 
 
+def extract_session_order5(out: Out, srcs):
+    c = srcs.get("client.py")
+    if c is None:
+        return
+    F = "SessionOrder"
+
+    def publish_store_shape():
+        """publish(), QoS 1/2: under _out_message_mutex, in this order - refusal when max_queued messages are outstanding, refusal when
+        the fresh id is still in use, the message is STORED, then the window test: inside the window the slot is taken and the state
+        set before _send_publish() is called (still under the lock), MQTT_ERR_NO_CONN gives the slot back and leaves the message in
+        state publish; outside the window the message is queued"""
+        f = c.func("Client.publish")
+        withs = [n for n in walk(f, ast.With) if unparse(n.items[0].context_expr) == "self._out_message_mutex"]
+        if len(withs) != 1:
+            raise Missing("publish: one `with self._out_message_mutex:` block")
+        body = withs[0].body
+        if len(body) != 4 or not all(isinstance(body[i], ast.If) for i in (0, 1, 3)) or not isinstance(body[2], ast.Assign):
+            raise Missing(f"publish: locked block has the statements {[type(x).__name__ for x in body]}")
+        if unparse(body[0].test) != "self._max_queued_messages > 0 and len(self._out_messages) >= self._max_queued_messages":
+            raise Missing("publish: queue-size test " + unparse(body[0].test))
+        if unparse(body[1].test) != "local_mid in self._out_messages":
+            raise Missing("publish: id-in-use test " + unparse(body[1].test))
+        for b in (body[0], body[1]):
+            if [unparse(x) for x in b.body] != ["message.info.rc = MQTTErrorCode.MQTT_ERR_QUEUE_SIZE", "return message.info"] or b.orelse:
+                raise Missing("publish: refusal branch " + unparse(b)[:80])
+        if unparse(body[2]) != "self._out_messages[message.mid] = message":
+            raise Missing("publish: store statement " + unparse(body[2]))
+        w = body[3]
+        if unparse(w.test) != "self._max_inflight_messages == 0 or self._inflight_messages < self._max_inflight_messages":
+            raise Missing("publish: window test " + unparse(w.test))
+        srcw = [unparse(x) for x in w.body]
+        if not (srcw[0] == "self._inflight_messages += 1" and isinstance(w.body[1], ast.If) and "self._send_publish(" in srcw[2] and srcw[2].startswith("rc = ")
+                and isinstance(w.body[3], ast.If) and unparse(w.body[3].test) == "rc == MQTTErrorCode.MQTT_ERR_NO_CONN"
+                and [unparse(x) for x in w.body[3].body] == ["self._inflight_messages -= 1", "message.state = mqtt_ms_publish"]
+                and srcw[4:] == ["message.info.rc = rc", "return message.info"]):
+            raise Missing(f"publish: window branch {srcw}")
+        if [unparse(x) for x in w.orelse] != ["message.state = mqtt_ms_queued", "message.info.rc = MQTTErrorCode.MQTT_ERR_SUCCESS", "return message.info"]:
+            raise Missing("publish: queued branch")
+        return True
+    out.anchor(F, "publishStoreShapeOk", "Bool", publish_store_shape,
+               "client.py Client.publish (QoS 1/2): under _out_message_mutex - queue-size refusal, id-in-use refusal, the message is stored, "
+               "window test; slot and state before _send_publish() (under the lock), NO_CONN gives the slot back (state publish); else queued")
+
+
+EXTRACTORS.append(extract_session_order5)
 EXTRACTORS.append(extract_session_order)
 EXTRACTORS.append(extract_session_order2)
 EXTRACTORS.append(extract_session_order3)
